@@ -55,6 +55,8 @@ MUT = [
  ("c17-inflight-peer-leaves-states", "sync/src/types/mod.rs", "                for block in blocks.hashes {\n                    state.remove(&block);", "                for block in blocks.hashes {", "C17", "m9"),
  ("c17-inflight-trace-strict", "sync/src/types/mod.rs", "        if self.restart_number >= block.number {", "        if self.restart_number > block.number {", "C17", "m9"),
  ("c17-inflight-second-request-overwrites", "sync/src/types/mod.rs", "            Entry::Occupied(_entry) => return false,", "            Entry::Occupied(mut entry) => entry.insert(InflightState::new(peer)),", "C17", "m9"),
+ ("c11-links-children-reads-parents", "tx-pool/src/component/links.rs", "            Relation::Children => &self.children,", "            Relation::Children => &self.parents,", "C11", "m13"),
+ ("c11-links-closure-one-level", "tx-pool/src/component/links.rs", "                    if !relation_ids.contains(direct_id) {\n                        stage.insert(direct_id.clone());\n                    }", "                    if relation_ids.contains(direct_id) {\n                        stage.insert(direct_id.clone());\n                    }", "C11", "m13"),
 ]
 sel = set(sys.argv[1:])
 for name, path, old, new, pid, only in MUT:
